@@ -579,7 +579,7 @@ def b_len(eng, st, args, kw):
         return [(st, SInt(len(v.items)))]
     if isinstance(v, SOpaque):
         # bytes / memoryview / other sized value held as an opaque field: its length is a (non-negative) function of the value
-        n = OPQ_LEN(v.val())
+        n = bytesalg.blob_len(v.t)  # the same length function as for a whole blob held as SBytes: one byte string, one length
         st.assume(n >= 0)
         return [(st, SInt(n))]
     raise Unsupported(f"len of {type(v).__name__}")
@@ -2080,6 +2080,8 @@ def slice_assign(eng, target, v, st, fi):
             out.append(s)
             continue
         from .engine import SBytes
+        if isinstance(obj, SBuiltin) and getattr(obj, "as_value", None) is not None:
+            obj = obj.as_value  # an attribute of an outside object (the buffer of a segment)
         if isinstance(obj, SBytes):
             obj = SOpaque(label="memoryview")  # a writable view handed out by the outside world: identity not tracked
         if not isinstance(obj, (SOpaque, SAny)) or (isinstance(obj, SAny) and obj.ty.kind not in ("any", "opaque")):
